@@ -747,3 +747,42 @@ Proof.
   intros c. split; [exact (gen_call_is_ended_eq c)|split; [exact (gen_call_is_close_delimited_eq c)|exact (gen_call_is_on_chunk_boundary_eq c)]].
 Qed.
 Print Assumptions c09_code_call_reader_questions.
+
+(* ================================================================== the tests behind can_proceed (translated from the source) *)
+(** Phase::is_prelude / is_body, the three is_finished functions of the calls, the guard of do_into_receive, Call::into_body and
+    Flow<SendRequest>::can_proceed are translated on every run and proved to be the model's tests (proofs/Gen2_equiv_small_proceed.v). *)
+From Hoot.proofs Require Import Gen2_equiv_small_proceed.
+Theorem c09_code_phase_tests : forall p, gen_phase_is_prelude p = is_prelude p /\ gen_phase_is_body p = is_body p.
+Proof. intros p. split; [apply gen_phase_is_prelude_eq|apply gen_phase_is_body_eq]. Qed.
+Print Assumptions c09_code_phase_tests.
+Theorem c09_code_is_finished : forall c,
+  gen_call_wob_is_finished (c_phase c) = negb (is_prelude (c_phase c)) /\
+  gen_call_wb_is_finished (w_mode (c_writer c)) (w_ended (c_writer c)) = w_ended (c_writer c) /\
+  gen_call_rr_is_finished (c_reader c) = match c_reader c with Some _ => true | None => false end.
+Proof. intros c. split; [apply gen_call_wob_is_finished_eq|split; [apply gen_call_wb_is_finished_eq|apply gen_call_rr_is_finished_eq]]. Qed.
+Print Assumptions c09_code_is_finished.
+Theorem c09_code_do_into_receive : forall c,
+  match into_receive c with
+  | Ok _ => gen_do_into_receive (w_mode (c_writer c)) (w_ended (c_writer c)) = Ok (w_mode (c_writer c), w_ended (c_writer c), tt)
+  | Err e => gen_do_into_receive (w_mode (c_writer c)) (w_ended (c_writer c)) = Err e
+  | Panic _ => False
+  end.
+Proof. exact gen_do_into_receive_eq. Qed.
+Print Assumptions c09_code_do_into_receive.
+Theorem c09_code_into_body : forall r,
+  gen_call_into_body r =
+  match r with
+  | None => Err IncompleteResponse
+  | Some RNoBody => Ok None
+  | Some _ => Ok (Some tt)
+  end.
+Proof. exact gen_call_into_body_table. Qed.
+Print Assumptions c09_code_into_body.
+Theorem c09_code_send_request_can_proceed : forall f,
+  match send_request_can_proceed f, gen_send_request_can_proceed (holder_view_of f) with
+  | Ok a, Ok b => a = b
+  | Panic _, Panic _ => True
+  | _, _ => False
+  end.
+Proof. exact gen_send_request_can_proceed_eq. Qed.
+Print Assumptions c09_code_send_request_can_proceed.
